@@ -1501,6 +1501,12 @@ pub struct AggregationState {
     key_strides: Vec<usize>,
     /// Group keys in order of first insertion (for output)
     key_order: Vec<GroupKey>,
+    /// Occupancy of each perfect-hash slot. Kept explicitly: a slot's key may
+    /// legitimately be NULL in every column and its accumulators may all
+    /// still look "empty" (COUNT(col) = 0, SUM/MIN/MAX = NULL), so neither
+    /// the recorded key nor the accumulators can tell a free slot from the
+    /// all-NULL-key group.
+    perfect_used: Vec<bool>,
     /// Total number of slots in perfect_accs
     perfect_capacity: usize,
     /// Whether we overflowed and fell back to HashMap
@@ -1538,6 +1544,7 @@ impl Default for AggregationState {
             key_maps: Vec::new(),
             key_strides: Vec::new(),
             key_order: Vec::new(),
+            perfect_used: Vec::new(),
             perfect_capacity: 0,
             overflowed: false,
             groups: HashMap::new(),
@@ -1656,17 +1663,14 @@ impl AggregationState {
                         values: vec![ScalarValue::Null; n],
                     })
                     .collect();
+                let mut new_used = vec![false; cap];
 
                 for old_idx in 0..old_capacity.min(self.perfect_accs.len()) {
                     if old_idx >= self.key_order.len() {
                         continue;
                     }
-                    // Check if this slot has data
-                    let has_data = !self.key_order[old_idx]
-                        .values
-                        .iter()
-                        .all(|v| matches!(v, ScalarValue::Null));
-                    if !has_data {
+                    // Free slots carry nothing to move
+                    if !self.slot_used(old_idx) {
                         continue;
                     }
 
@@ -1687,6 +1691,7 @@ impl AggregationState {
                     }
 
                     // Move accumulators and key_order to new position
+                    new_used[new_idx] = true;
                     std::mem::swap(&mut new_accs[new_idx], &mut self.perfect_accs[old_idx]);
                     new_key_order[new_idx] = std::mem::replace(
                         &mut self.key_order[old_idx],
@@ -1698,6 +1703,7 @@ impl AggregationState {
 
                 self.perfect_accs = new_accs;
                 self.key_order = new_key_order;
+                self.perfect_used = new_used;
             } else {
                 // No rehash needed — just extend arrays
                 while self.perfect_accs.len() < cap {
@@ -1715,6 +1721,8 @@ impl AggregationState {
                     });
                 }
             }
+            self.perfect_used
+                .resize(cap.max(self.perfect_used.len()), false);
             self.perfect_capacity = cap;
         }
 
@@ -1725,17 +1733,13 @@ impl AggregationState {
         }
 
         // Record key values for output (only on first assignment)
-        if flat_idx < self.key_order.len()
-            && self.key_order[flat_idx]
-                .values
-                .iter()
-                .all(|v| matches!(v, ScalarValue::Null))
-        {
+        if flat_idx < self.key_order.len() && !self.slot_used(flat_idx) {
+            if self.perfect_used.len() <= flat_idx {
+                self.perfect_used.resize(flat_idx + 1, false);
+            }
+            self.perfect_used[flat_idx] = true;
             for (col, accessor) in group_accessors.iter().enumerate() {
-                let val = accessor.extract_scalar(row);
-                if !matches!(val, ScalarValue::Null) {
-                    self.key_order[flat_idx].values[col] = val;
-                }
+                self.key_order[flat_idx].values[col] = accessor.extract_scalar(row);
             }
         }
 
@@ -2000,6 +2004,7 @@ impl AggregationState {
                 );
                 self.perfect_capacity = 1;
                 self.key_order.push(GroupKey { values: vec![] });
+                self.perfect_used.push(true);
             }
             let accs = &mut self.perfect_accs[0];
             for row in 0..num_rows {
@@ -2230,56 +2235,18 @@ impl AggregationState {
         }
     }
 
-    /// Check if a perfect hash slot has data.
-    /// For GROUP BY without aggregates (DISTINCT-like), check key_order instead.
-    fn slot_has_data(key: &GroupKey, accs: &[AccumulatorState]) -> bool {
-        // A slot whose key was recorded is a real group, even when every
-        // accumulator still looks "empty". That happens for legitimate
-        // results: COUNT(col) is 0 and MIN/MAX are NULL when the group's
-        // rows all carry NULL in the aggregated column (exactly what an
-        // outer join's NULL-extended rows produce), and SUM can genuinely be
-        // 0.0. Inferring occupancy from the accumulators deleted those whole
-        // rows from the output. This is the same occupancy test the
-        // perfect-hash rehash uses.
-        if !key.values.is_empty() && !key.values.iter().all(|v| matches!(v, ScalarValue::Null)) {
-            return true;
-        }
-        // An empty key vector is the GLOBAL (ungrouped) aggregate's single
-        // slot, not a free slot — a grouped key always carries one value per
-        // group column. SQL gives a global aggregate exactly one output row
-        // whatever the input, so this slot is never droppable (the accumulator
-        // probe would drop `SELECT SUM(x) FROM t` when every x is NULL).
-        if key.values.is_empty() && !accs.is_empty() {
-            return true;
-        }
-        // Unrecorded key: either a free slot, or a group whose key really is
-        // NULL in every column. Fall back to the accumulator probe, which
-        // keeps NULL-keyed groups that did see data.
-        if accs.is_empty() {
-            return false;
-        }
-        accs.iter().any(|a| match a {
-            AccumulatorState::Count(c) => *c > 0,
-            AccumulatorState::Sum(_, seen) => *seen,
-            AccumulatorState::SumInt(_, seen) => *seen,
-            AccumulatorState::Avg { count, .. } => *count > 0,
-            AccumulatorState::Min(v) => v.is_some(),
-            AccumulatorState::Max(v) => v.is_some(),
-            AccumulatorState::BoolAnd(v) => v.is_some(),
-            AccumulatorState::BoolOr(v) => v.is_some(),
-            AccumulatorState::First(v) => v.is_some(),
-            AccumulatorState::Variance { count, .. } => *count > 0,
-        })
+    /// Does perfect-hash slot `idx` hold a group? (See `perfect_used`.)
+    #[inline]
+    fn slot_used(&self, idx: usize) -> bool {
+        self.perfect_used.get(idx).copied().unwrap_or(false)
     }
 
     /// Drain perfect hash accumulators into the HashMap fallback
     fn drain_perfect_to_hashmap(&mut self) {
+        let used = std::mem::take(&mut self.perfect_used);
         for (idx, accs) in self.perfect_accs.drain(..).enumerate() {
-            if idx < self.key_order.len() {
-                let key = &self.key_order[idx];
-                if Self::slot_has_data(key, &accs) {
-                    self.groups.insert(key.clone(), accs);
-                }
+            if idx < self.key_order.len() && used.get(idx).copied().unwrap_or(false) {
+                self.groups.insert(self.key_order[idx].clone(), accs);
             }
         }
         self.key_order.clear();
@@ -2291,9 +2258,7 @@ impl AggregationState {
             self.perfect_accs
                 .iter()
                 .enumerate()
-                .filter(|(idx, accs)| {
-                    *idx < self.key_order.len() && Self::slot_has_data(&self.key_order[*idx], accs)
-                })
+                .filter(|(idx, _)| *idx < self.key_order.len() && self.slot_used(*idx))
                 .count()
         } else {
             0
@@ -2501,7 +2466,7 @@ impl AggregationState {
                 if idx >= other.key_order.len() {
                     continue;
                 }
-                if !Self::slot_has_data(&other.key_order[idx], other_accs) {
+                if !other.slot_used(idx) {
                     continue;
                 }
 
@@ -2528,6 +2493,10 @@ impl AggregationState {
                             });
                         }
                         self.key_order[our_idx] = key.clone();
+                        if self.perfect_used.len() <= our_idx {
+                            self.perfect_used.resize(our_idx + 1, false);
+                        }
+                        self.perfect_used[our_idx] = true;
 
                         for (acc, other_acc) in
                             self.perfect_accs[our_idx].iter_mut().zip(other_accs.iter())
@@ -2590,6 +2559,10 @@ impl AggregationState {
                         });
                     }
                     self.key_order[our_idx] = key.clone();
+                    if self.perfect_used.len() <= our_idx {
+                        self.perfect_used.resize(our_idx + 1, false);
+                    }
+                    self.perfect_used[our_idx] = true;
                     for (acc, other_acc) in
                         self.perfect_accs[our_idx].iter_mut().zip(other_accs.iter())
                     {
@@ -2726,16 +2699,13 @@ impl AggregationState {
                         values: vec![ScalarValue::Null; n],
                     })
                     .collect();
+                let mut new_used = vec![false; cap];
 
                 for old_idx in 0..old_capacity.min(self.perfect_accs.len()) {
                     if old_idx >= self.key_order.len() {
                         continue;
                     }
-                    let has_data = !self.key_order[old_idx]
-                        .values
-                        .iter()
-                        .all(|v| matches!(v, ScalarValue::Null));
-                    if !has_data {
+                    if !self.slot_used(old_idx) {
                         continue;
                     }
 
@@ -2754,6 +2724,7 @@ impl AggregationState {
                         new_idx += col_id * self.key_strides[col];
                     }
 
+                    new_used[new_idx] = true;
                     std::mem::swap(&mut new_accs[new_idx], &mut self.perfect_accs[old_idx]);
                     new_key_order[new_idx] = std::mem::replace(
                         &mut self.key_order[old_idx],
@@ -2765,6 +2736,7 @@ impl AggregationState {
 
                 self.perfect_accs = new_accs;
                 self.key_order = new_key_order;
+                self.perfect_used = new_used;
             } else {
                 while self.perfect_accs.len() < cap {
                     self.perfect_accs.push(
@@ -2781,6 +2753,8 @@ impl AggregationState {
                     });
                 }
             }
+            self.perfect_used
+                .resize(cap.max(self.perfect_used.len()), false);
             self.perfect_capacity = cap;
         }
 
@@ -2828,7 +2802,7 @@ impl AggregationState {
                 if idx >= self.key_order.len() {
                     continue;
                 }
-                if Self::slot_has_data(&self.key_order[idx], accs) {
+                if self.slot_used(idx) {
                     all_groups.push((&self.key_order[idx], accs));
                 }
             }
